@@ -16,6 +16,15 @@ Proof. unfold ndisp, dispatches. rewrite count_app. lia. Qed.
 Lemma nheads_app a b : nheads (a ++ b) = nheads a + nheads b.
 Proof. unfold nheads, heads. rewrite count_app. lia. Qed.
 
+Lemma nheads_cons e l : nheads (e :: l) = (if is_head e then 1 else 0) + nheads l.
+Proof. unfold nheads, heads, count_ev. cbn [filter]. destruct (is_head e); cbn [length]; lia. Qed.
+Lemma ndisp_cons e l : ndisp (e :: l) = (if is_dispatch e then 1 else 0) + ndisp l.
+Proof. unfold ndisp, dispatches, count_ev. cbn [filter]. destruct (is_dispatch e); cbn [length]; lia. Qed.
+Lemma nheads_nil : nheads [] = 0. Proof. reflexivity. Qed.
+Lemma ndisp_nil : ndisp [] = 0. Proof. reflexivity. Qed.
+Lemma head_events_counts t : nheads (head_events t) = 0 /\ ndisp (head_events t) = 0.
+Proof. unfold head_events. destruct (limit_hit _); [destruct (onmax _)|]; split; reflexivity. Qed.
+
 (* ---------- the loop head ---------- *)
 Definition default_thread (t : thread) : Prop := onmax t = None.
 
@@ -102,7 +111,7 @@ Section M.
     maxSteps (sthread s) = n /\ default_thread (sthread s).
 
   Lemma tick_budget n s k s' ev :
-    1 <= n -> budget_inv n s -> tick_step s k = (s', ev) ->
+    1 <= n -> budget_inv n s -> (pend s = 1 -> steps (sthread s) < n) -> tick_step s k = (s', ev) ->
     steps (sthread s) + nheads ev < two64 ->
     budget_inv n s' /\
     steps (sthread s') = steps (sthread s) + nheads ev /\
@@ -111,50 +120,46 @@ Section M.
     pend s' + (n - 1 - steps (sthread s')) + ndisp ev <= pend s + (n - 1 - steps (sthread s)) /\
     (pend s' = 1 -> steps (sthread s') < n).
   Proof.
-    intros Hn [Hm Hd] Ht Hw.
+    intros Hn [Hm Hd] Hpn Ht Hw.
     destruct k as [|r|]; cbn in Ht.
     2,3: inversion Ht; subst; clear Ht; destruct s as [c|t x r0]; cbn in *;
          unfold budget_inv, default_thread, do_cancel, do_uncancel; cbn;
          try destruct (cancel _); cbn; repeat split; auto; try lia.
+    clear Hpn.
     destruct s as [c|t x r0]; [|inversion Ht; subst; cbn; unfold budget_inv; cbn in *; repeat split; auto; lia].
     unfold Model.mstep in Ht. cbn in Hm, Hd, Hw |- *.
     destruct (stk c) as [|[ph|] rest] eqn:Hs.
     - inversion Ht; subst; cbn. unfold budget_inv; cbn. repeat split; auto; lia.
     - destruct (perr c) as [e|] eqn:Hp.
       + inversion Ht; subst; clear Ht. unfold budget_inv. rewrite deliver_pend, deliver_thread. cbn.
-        repeat split; auto; try lia. destruct ph; cbn; lia.
+        repeat split; auto; try lia; destruct ph; cbn; lia.
       + destruct ph.
         * destruct (loop_head (th c)) as [t' cr] eqn:Hl.
           destruct (loop_head_fields _ _ _ Hl) as (Hst & Hmx & _ & Hon & Hcr).
           destruct (loop_head_default _ _ _ Hd Hl) as (Hlim & _ & _ & _).
-          assert (Hhe : forall l, nheads (EvHead :: l) = 1 + nheads l) by (intros; unfold nheads, heads, count_ev; cbn; lia).
-          assert (Hhe0 : nheads (head_events (th c)) = 0 /\ ndisp (head_events (th c)) = 0).
-          { unfold head_events. destruct (limit_hit _); [destruct (onmax _)|]; split; reflexivity. }
-          destruct Hhe0 as [Hh0 Hd0].
+          destruct (head_events_counts (th c)) as [Hh0 Hd0].
           destruct cr as [r|].
-          -- inversion Ht; subst s' ev; clear Ht.
-             rewrite nheads_app, Hhe, Hh0 in Hw. cbn in Hw.
-             assert (Hs1 : steps t' = steps (th c) + 1) by (rewrite Hst; apply N.mod_small; unfold nheads, heads, count_ev in Hw; cbn in Hw; lia).
+          -- injection Ht as <- <-.
+             rewrite nheads_cons, nheads_app, Hh0, nheads_cons, nheads_nil in Hw. cbn [is_head] in Hw.
+             assert (Hs1 : steps t' = steps (th c) + 1) by (rewrite Hst; apply N.mod_small; lia).
              unfold budget_inv. rewrite deliver_pend, deliver_thread.
-             rewrite nheads_app, ndisp_app, Hhe, Hh0. unfold default_thread. rewrite Hon, Hmx.
-             assert (ndisp (EvHead :: head_events (th c)) = 0) by (unfold ndisp, dispatches, count_ev in *; cbn; exact Hd0).
-             assert (ndisp [EvCancelExit r] = 0) by reflexivity.
-             assert (nheads [EvCancelExit r] = 0) by reflexivity.
-             cbn. repeat split; auto; try lia.
-          -- inversion Ht; subst s' ev; clear Ht.
-             rewrite Hhe, Hh0 in Hw.
+             rewrite nheads_cons, ndisp_cons, nheads_app, ndisp_app, Hh0, Hd0, nheads_cons, ndisp_cons, nheads_nil, ndisp_nil.
+             unfold default_thread. rewrite Hon, Hmx. cbn [is_head is_dispatch pend_stk].
+             repeat split; auto; try lia.
+          -- injection Ht as <- <-.
+             rewrite nheads_cons, Hh0 in Hw. cbn [is_head] in Hw.
              assert (Hs1 : steps t' = steps (th c) + 1) by (rewrite Hst; apply N.mod_small; lia).
              assert (Hlt : steps t' < n).
              { destruct (N.le_gt_cases (maxSteps (th c)) ((steps (th c) + 1) mod two64)) as [L|L].
                - exfalso. apply (Hlim L). reflexivity.
                - rewrite <- Hst in L. lia. }
-             unfold budget_inv, default_thread. cbn. rewrite Hhe, Hh0, Hon, Hmx.
-             assert (ndisp (EvHead :: head_events (th c)) = 0) by (unfold ndisp, dispatches, count_ev in *; cbn; exact Hd0).
+             unfold budget_inv, default_thread. cbn [pend sthread status_thread th stk pend_stk].
+             rewrite nheads_cons, ndisp_cons, Hh0, Hd0, Hon, Hmx. cbn [is_head is_dispatch].
              repeat split; auto; try lia.
         * (* dispatch *)
           assert (Hev : nheads ev = 0 /\ ndisp ev = 1).
           { destruct (dispatch (st c)); inversion Ht; subst; split; reflexivity. }
-          destruct Hev as [He1 He2]. rewrite He1, He2. cbn.
+          destruct Hev as [He1 He2]. rewrite He1, He2. cbn [pend_stk].
           assert (Hs' : pend s' = 0 /\ (sthread s' = th c \/ sthread s' = call_init (th c))).
           { destruct (dispatch (st c)); inversion Ht; subst; cbn.
             - auto.
@@ -169,7 +174,7 @@ Section M.
     - (* host frame *)
       assert (Hev : nheads ev = 0 /\ ndisp ev = 0).
       { destruct (host (st c) (perr c)); inversion Ht; subst; split; reflexivity. }
-      destruct Hev as [He1 He2]. rewrite He1, He2. cbn.
+      destruct Hev as [He1 He2]. rewrite He1, He2. cbn [pend_stk].
       destruct (call_init_fields (th c)) as (C1 & C2 & C3 & C4).
       assert (Hs' : pend s' = 0 /\ steps (sthread s') = steps (th c) /\ maxSteps (sthread s') = n /\ onmax (sthread s') = None).
       { destruct (host (st c) (perr c)); inversion Ht; subst; cbn;
@@ -178,15 +183,6 @@ Section M.
       destruct Hs' as (Hp0 & S1 & S2 & S3). unfold budget_inv, default_thread.
       rewrite Hp0, S1. repeat split; auto; lia.
   Qed.
-
-  Lemma run_budget n sched : forall s s' tr,
-    1 <= n -> budget_inv n s -> run s sched = (s', tr) ->
-    steps (sthread s) + nheads tr < two64 ->
-    budget_inv n s' /\
-    steps (sthread s') = steps (sthread s) + nheads tr /\
-    pend s' + ndisp tr <= pend s + (n - 1 - steps (sthread s)) /\
-    (pend s = 1 -> steps (sthread s) < n) -> True.
-  Proof. auto. Qed.
 
   Lemma run_budget' n sched : forall s s' tr,
     1 <= n -> budget_inv n s -> (pend s = 1 -> steps (sthread s) < n) ->
@@ -198,13 +194,13 @@ Section M.
     pend s' + (n - 1 - steps (sthread s')) + ndisp tr <= pend s + (n - 1 - steps (sthread s)).
   Proof.
     induction sched as [|k rest IH]; intros s s' tr Hn Hb Hp Hr Hw.
-    - cbn in Hr. inversion Hr; subst. cbn. repeat split; auto; try lia. unfold nheads, heads, count_ev. cbn. lia.
+    - cbn in Hr. injection Hr as <- <-. rewrite nheads_nil, ndisp_nil. split; [exact Hb|]. repeat split; auto; lia.
     - cbn in Hr. destruct (tick_step s k) as [s1 e1] eqn:Ht.
       destruct (run s1 rest) as [s2 e2] eqn:Hr2. inversion Hr; subst s' tr; clear Hr.
       rewrite nheads_app in Hw.
-      destruct (tick_budget n s k s1 e1 Hn Hb Ht ltac:(lia)) as (B1 & B2 & B3 & B4 & B5).
+      destruct (tick_budget n s k s1 e1 Hn Hb Hp Ht ltac:(lia)) as (B1 & B2 & B3 & B4 & B5).
       destruct (IH s1 s2 e2 Hn B1 B5 Hr2 ltac:(lia)) as (I1 & I2 & I3 & I4).
-      rewrite nheads_app, ndisp_app. repeat split; auto; lia.
+      rewrite nheads_app, ndisp_app. split; [exact I1|]. repeat split; auto; lia.
   Qed.
 
   (* budget_respected, part (a): fewer than N dispatches, whatever the program,
